@@ -157,6 +157,55 @@ def run(ctx):
 
     fns = [f for f in cli.fn_list if f.kind != "Closure" and f.hir and ("::commands::" in f.path or f.path.endswith("warcraft_rs::main"))]
 
+    # truncated input must fail in the library for the CLI to exit non-zero: the DBC string block's declared size is enforced
+    from .c17 import string_block_size_enforced
+    string_block_size_enforced(ctx, prog.crate("wow_cdbc"), "C20")
+
+    # work lists are narrowed only on the user's request
+    R_work = ctx.rule("C20.work-list-narrowed-only-by-user-filter", "in the mpq extract/create/list commands a `retain`/`truncate`/`drain`/`dedup` on a file list is conditional on an option the user passed", floor=1)
+    from .c07 import enclosing_if_conditions
+    NARROW = ("retain", "retain_mut", "truncate", "drain", "dedup", "dedup_by", "dedup_by_key", "split_off")
+    for f in fns:
+        if "::commands::mpq::" not in f.path:
+            continue
+        body = f.hir["body"]
+        params = {b_ for p_ in f.hir["params"] for b_ in hirq.pat_binds(p_)}
+        derived = set(params)
+        for l in [x for x in hirq.walk(body) if x.get("k") in ("let", "letx")]:
+            if l.get("init") is None:
+                continue
+            init_locals = {x["res"]["local"] for x in hirq.walk(l["init"]) if x.get("k") == "path" and "local" in x["res"]}
+            i0 = hirq.strip(l["init"])
+            if (i0.get("k") in ("path", "field", "mcall") and init_locals and init_locals <= derived and not any(c_.get("k") == "call" for c_ in hirq.walk(i0))):
+                derived |= set(hirq.pat_binds(l["pat"]))
+        for c in hirq.walk(body):
+            if c.get("k") != "mcall" or c["m"] not in NARROW:
+                continue
+            recv = hirq.strip(c["recv"])
+            if recv.get("k") != "path" or "local" not in recv["res"]:
+                continue
+            ty = cli.ty(recv.get("t")) or ""
+            if "Vec<" not in ty:
+                continue
+            ctx.saw_fn(f)
+            conds = enclosing_if_conditions(body, c)
+            # the predicate / bound itself must be parameterised by something the user passed (a constant policy filter is not a user filter)
+            own = set()
+            for a in c["args"]:
+                for x in hirq.walk(a):
+                    if x.get("k") == "closure":
+                        for p_ in x.get("params", []) or []:
+                            own |= set(hirq.pat_binds(p_))
+            used = {x["res"]["local"] for a in c["args"] for x in hirq.walk(a) if x.get("k") == "path" and "local" in x["res"]} - own
+            by_user = bool(used & derived)
+            inst = {"fn": f.path, "call": "%s.%s" % (hirq.render(recv), c["m"]), "line": c["ln"], "guards": [hirq.render(cd)[:60] for _, cd in conds]}
+            if by_user:
+                ctx.ok(R_work, inst)
+            else:
+                ctx.bad(R_work, "%s|%s.%s|unconditional" % (f.path.split("::")[-1], hirq.render(recv), c["m"]), "%s:%d" % (f.file, c["ln"]),
+                        "`%s.%s(..)` removes entries from the work list without any user option asking for it" % (hirq.render(recv), c["m"]),
+                        "files the archive contains are neither extracted nor counted as failures: the command exits 0 with its output incomplete")
+
     # main dispatch
     mains = [f for f in cli.fn_list if f.path.startswith("warcraft_rs::main")]
     n_disp = 0
